@@ -91,7 +91,7 @@ pub fn run(ctx: &mut Ctx) {
     ctx.note("foreign_byte_values_covered", json!(foreign.len()));
     ctx.note("byte_values_impossible_in_utf8_not_covered", json!(["0xC0", "0xC1", "0xF5..0xFF"]));
 
-    let total = ctx.size(30_000, 600_000);
+    let total = ctx.size(120_000, 1_000_000);
     for n in ctx.cases("bases", total) {
         let mut rng = ctx.begin("bases", n);
         let cfg = DocCfg { max_lines: *rng.pick(&[1, 3, 5]), max_segs: *rng.pick(&[1, 3, 6]), big: rng.chance(1, 4), allow_header: false, allow_index: false, ..DocCfg::default() };
